@@ -84,7 +84,7 @@ impl Dom for Q {
     const MAXV: usize = 31;
     type Store<V: Elem> = Store24<V>;
 }
-/// thorough tier: buffer <= 48 elements, 6-bit values
+/// 48-element / 6-bit instantiations: NOT registered -- not measured in the time available
 pub(crate) struct T;
 impl Dom for T {
     const MAXBUF: usize = 48;
@@ -409,7 +409,7 @@ instantiate! {
     ss_as_i32_q = as_i32_ok::<Q>();
     ss_as_vectored_q = as_vectored_ok::<Q>();
 }
-// thorough tier: buffer <= 48 elements, 6-bit values
+// 48-element / 6-bit instantiations: NOT registered -- not measured in the time available
 instantiate! {
     ss_from_buf_i16 = from_buf_ok::<i16, T>();
     ss_from_buf_f32 = from_buf_ok::<f32, T>();
